@@ -95,6 +95,8 @@ def admits(t_out, t_in):
         return any(admits(m, t_in) for m in t_out.__args__)
     if _is_empty_container(t_in) and _kind(t_in) in ("List", "Set", "Dict", "DefaultDict") and _kind(t_out) == _kind(t_in):
         return True
+    if t_out is dict and (O.is_anon_td(t_in) or _kind(t_in) in ("Dict", "DefaultDict")):
+        return True  # the class dict admits every dict value
     if O.is_anon_td(t_in) and O.is_anon_td(t_out):
         ri, oi = O.td_fields(t_in)
         ro, oo = O.td_fields(t_out)
@@ -177,9 +179,10 @@ TGS = {"quick": TG_QUICK, "union": TG_UNION, "full": TG_FULL, "deep": TG_DEEP,
        "sub11": (11, ("bare", "List")), "sub10": (10, ("bare", "List", "TDField")), "sub14": (14,), "sub17": (17, ("bare", "DictValue")), "sub8": (8, ("bare",)),
        "sub24": (24, ("bare",)),
        "mix9": (9, ("bare",), "MEMBERS2", True), "mix13": (13, ("bare", "List"), "MEMBERS2", True),
-       "nest8": (8, ("bare",), "MEMBERS3", True), "nest4": (4, ("bare",), "MEMBERS3", True)}
+       "nest8": (8, ("bare",), "MEMBERS3", True), "nest4": (4, ("bare",), "MEMBERS3", True),
+       "td7": (7, ("bare", "GeneratorYield"), "MEMBERS4", True)}
 VGS = {"tiny": G_TINY, "small": G_SMALL, "quick": G_QUICK, "medium": G_MEDIUM}
-TAPE_N = {"quick": 24, "union": 26, "full": 30, "deep": 40, "sub10": 13, "sub11": 14, "sub14": 17, "sub17": 20, "sub8": 11, "sub24": 27, "mix9": 13, "mix13": 17, "nest8": 13, "nest4": 9}
+TAPE_N = {"quick": 24, "union": 26, "full": 30, "deep": 40, "sub10": 13, "sub11": 14, "sub14": 17, "sub17": 20, "sub8": 11, "sub24": 27, "mix9": 13, "mix13": 17, "nest8": 13, "nest4": 9, "td7": 12}
 REG = {}
 for _gn, _g in TGS.items():
     for _pairs in (False, True):
